@@ -1,11 +1,14 @@
 (* C13: the background maintenance worker of the L3 storage model (Model.v).
-   - the worker survives every operation except a background request that cannot apply (finding F1)
-     and the end of the session;
+   - the worker survives every operation except the end of the session; in particular a background request
+     that cannot apply is logged and changes nothing (before commit 62103db of the code it killed the
+     worker: finding F1);
+   - hence after every history an open storage has a live worker;
    - with a live worker a write that fills the (aged) active blob rotates to a fresh blob;
    - requested index dumps are complete at the quiescence point;
    - close returns and leaves only files.
    Model.v is not modified; all statements are about the model as written. *)
-Require Import Pearl.Base.Prelude Pearl.Storage.Model Pearl.Storage.Spec Pearl.Storage.Inv Pearl.Storage.InvProofs.
+Require Import Pearl.Base.Prelude Pearl.Storage.Model Pearl.Storage.Spec Pearl.Storage.Inv Pearl.Storage.InvProofs
+               Pearl.Storage.Theorems.
 
 (* ---------- s_alive through the helpers ---------- *)
 Lemma alive_upd_active s a : s_alive (upd_active s a) = s_alive s. Proof. reflexivity. Qed.
@@ -30,19 +33,18 @@ Proof. unfold close_active. destruct (s_active s); reflexivity. Qed.
 Lemma alive_create_active s : s_alive (fst (create_active s)) = s_alive s.
 Proof. unfold create_active. destruct (s_active s); [reflexivity | apply alive_ensure_active]. Qed.
 
-Lemma alive_restore_active s : s_alive (fst (restore_active s)) = s_alive s.
+Lemma alive_restore_active K s : s_alive (fst (restore_active K s)) = s_alive s.
 Proof.
   unfold restore_active. destruct (s_active s); [reflexivity|].
   destruct (pop_last (s_closed s)) as [[b c]|]; reflexivity.
 Qed.
 
-(* the worker lives on exactly when the request it processed succeeded *)
+(* the worker lives on whether the request it processed succeeded or not *)
 Lemma alive_worker s f :
-  s_alive s = true -> (forall s, s_alive (fst (f s)) = s_alive s) ->
-  s_alive (worker s f) = match snd (f s) with Some _ => false | None => true end.
+  (forall s, s_alive (fst (f s)) = s_alive s) -> s_alive (worker s f) = s_alive s.
 Proof.
-  intros Ha Hf. unfold worker. rewrite Ha. specialize (Hf s).
-  destruct (f s) as [s' [e|]]; cbn in *; [reflexivity | congruence].
+  intros Hf. unfold worker. destruct (s_alive s) eqn:Ha; [|exact Ha].
+  rewrite Hf. exact Ha.
 Qed.
 
 Lemma worker_dead s f : s_alive s = false -> worker s f = s.
@@ -130,10 +132,10 @@ Lemma step_open s o : s_open s = true ->
     let '(s', e) := close_active s in
     (request_dump s', match e with Some e => RErr e | None => RUnit end)
   | OCreateActive => let '(s', e) := create_active s in (s', match e with Some e => RErr e | None => RUnit end)
-  | ORestoreActive => let '(s', e) := restore_active s in (s', match e with Some e => RErr e | None => RUnit end)
+  | ORestoreActive => let '(s', e) := restore_active K s in (s', match e with Some e => RErr e | None => RUnit end)
   | OBgClose => (request_dump (worker s close_active), RUnit)
   | OBgCreate => (worker s create_active, RUnit)
-  | OBgRestore => (worker s restore_active, RUnit)
+  | OBgRestore => (worker s (restore_active K), RUnit)
   | OForceUpdate p =>
     let s' := if s_alive s && eval_pred p s then replace_active s else s in (request_dump s', RUnit)
   | OFreeExcess => (request_dump s, RUnit)
@@ -154,13 +156,12 @@ Proof.
   destruct o; reflexivity.
 Qed.
 
-(* the worker survives every operation except an inapplicable background request
-   (and the end of the session) *)
+(* the worker survives every operation except the end of the session *)
 Theorem alive_preserved : forall s o,
-  s_open s = true -> s_alive s = true -> ~ inapplicable s o -> ~ ends_session o ->
+  s_open s = true -> s_alive s = true -> ~ ends_session o ->
   s_alive (fst (step_q K cfg s o)) = true.
 Proof.
-  intros s o Ho Ha Hin Hend.
+  intros s o Ho Ha Hend.
   rewrite step_q_fst, alive_quiesce, (step_open s o Ho).
   destruct o; cbn [fst]; try exact Ha.
   - rewrite alive_do_write. exact Ha.
@@ -168,21 +169,10 @@ Proof.
   - pose proof (alive_close_active s) as H. destruct (close_active s) as [s' e]. cbn [fst] in *.
     rewrite alive_request_dump. congruence.
   - pose proof (alive_create_active s) as H. destruct (create_active s) as [s' e]. cbn [fst] in *. congruence.
-  - pose proof (alive_restore_active s) as H. destruct (restore_active s) as [s' e]. cbn [fst] in *. congruence.
-  - (* OBgClose *)
-    rewrite alive_request_dump, (alive_worker s close_active Ha alive_close_active).
-    cbn [inapplicable] in Hin. unfold close_active.
-    destruct (s_active s); [reflexivity | congruence].
-  - (* OBgCreate *)
-    rewrite (alive_worker s create_active Ha alive_create_active).
-    cbn [inapplicable] in Hin. unfold create_active.
-    destruct (s_active s); [|reflexivity]. exfalso. apply Hin. discriminate.
-  - (* OBgRestore *)
-    rewrite (alive_worker s restore_active Ha alive_restore_active).
-    cbn [inapplicable] in Hin. unfold restore_active.
-    destruct (s_active s). { exfalso. apply Hin. left. discriminate. }
-    destruct (pop_last (s_closed s)) as [[b c]|]; [reflexivity|].
-    exfalso. apply Hin. right. reflexivity.
+  - pose proof (alive_restore_active K s) as H. destruct (restore_active K s) as [s' e]. cbn [fst] in *. congruence.
+  - (* OBgClose *) rewrite alive_request_dump, (alive_worker s close_active alive_close_active). exact Ha.
+  - (* OBgCreate *) rewrite (alive_worker s create_active alive_create_active). exact Ha.
+  - (* OBgRestore *) rewrite (alive_worker s (restore_active K) (alive_restore_active K)). exact Ha.
   - (* OForceUpdate *)
     rewrite alive_request_dump. destruct (s_alive s && eval_pred pred s); exact Ha.
   - rewrite alive_request_dump. exact Ha.
@@ -191,23 +181,44 @@ Proof.
   - exfalso. apply Hend. right. reflexivity.
 Qed.
 
-(* finding F1: each of the three requests, made when it cannot apply, kills the worker *)
-Theorem inapplicable_kills : forall s o,
-  s_open s = true -> s_alive s = true -> inapplicable s o -> s_alive (fst (step_q K cfg s o)) = false.
+(* a background request made when it cannot apply changes nothing: the state before the implicit quiesce is the
+   state it was made in, except that a close request still asks for the index dumps (as every close request
+   does, TryDumpBlobIndexes being sent whatever the outcome) *)
+Lemma inapplicable_step : forall s o,
+  s_open s = true -> inapplicable s o ->
+  fst (step K cfg s o) = match o with OBgClose => request_dump s | _ => s end.
 Proof.
-  intros s o Ho Ha Hin.
-  rewrite step_q_fst, alive_quiesce, (step_open s o Ho).
-  destruct o; cbn [inapplicable] in Hin; try contradiction; cbn [fst].
-  - rewrite alive_request_dump, (alive_worker s close_active Ha alive_close_active).
-    unfold close_active. rewrite Hin. reflexivity.
-  - rewrite (alive_worker s create_active Ha alive_create_active).
-    unfold create_active. destruct (s_active s); [reflexivity | congruence].
-  - rewrite (alive_worker s restore_active Ha alive_restore_active).
-    unfold restore_active. destruct (s_active s); [reflexivity|].
-    destruct Hin as [Hin|Hin]; [congruence|]. rewrite Hin. reflexivity.
+  intros s o Ho Hin. rewrite (step_open s o Ho).
+  destruct o; cbn [inapplicable] in Hin; try contradiction; cbn [fst]; unfold worker.
+  - unfold close_active. rewrite Hin. destruct (s_alive s); reflexivity.
+  - unfold create_active. destruct (s_active s); [|congruence]. destruct (s_alive s); reflexivity.
+  - unfold restore_active. destruct (s_active s); [destruct (s_alive s); reflexivity|].
+    destruct Hin as [Hin|Hin]; [congruence|]. rewrite Hin. destruct (s_alive s); reflexivity.
 Qed.
 
-(* the inapplicable requests themselves report success to the caller: the failure is silent *)
+(* finding F1 repaired: each of the three requests, made when it cannot apply, leaves the worker alive and
+   the log as it was *)
+Theorem inapplicable_harmless : forall s o,
+  s_open s = true -> s_alive s = true -> inapplicable s o ->
+  s_alive (fst (step_q K cfg s o)) = true /\ abs (fst (step_q K cfg s o)) = abs s.
+Proof.
+  intros s o Ho Ha Hin. split.
+  - apply alive_preserved; [exact Ho|exact Ha|].
+    intros [E|E]; subst o; exact Hin.
+  - rewrite step_q_fst, (quiesce_abs K), (inapplicable_step s o Ho Hin).
+    destruct o; try reflexivity. apply abs_request_dump.
+Qed.
+
+(* and every read answers as before *)
+Theorem inapplicable_reads : forall s o k meta,
+  s_open s = true -> inapplicable s o ->
+  get_latest_entry (fst (step K cfg s o)) k meta = get_latest_entry s k meta.
+Proof.
+  intros s o k meta Ho Hin. rewrite (inapplicable_step s o Ho Hin).
+  destruct o; try reflexivity. unfold request_dump. destruct (s_alive s); reflexivity.
+Qed.
+
+(* the inapplicable requests themselves report success to the caller (the failure is only logged) *)
 Theorem inapplicable_silent : forall s o,
   s_open s = true -> inapplicable s o -> snd (step_q K cfg s o) = RUnit.
 Proof.
@@ -215,8 +226,9 @@ Proof.
   destruct o; cbn [inapplicable] in Hin; try contradiction; reflexivity.
 Qed.
 
-(* once dead, the worker stays dead until the session ends (only OOpen revives it, and OOpen is
-   refused while a session is open) *)
+(* a dead worker stays dead until the session ends (only OOpen revives it, and OOpen is refused while a
+   session is open); since the repair of F1 no open storage with a dead worker is reachable
+   (alive_after_every_history), so this speaks about no state a history leads to *)
 Theorem dead_stays_dead : forall s o,
   s_open s = true -> s_alive s = false -> s_alive (fst (step_q K cfg s o)) = false.
 Proof.
@@ -228,7 +240,7 @@ Proof.
   - pose proof (alive_close_active s) as H. destruct (close_active s) as [s' e]. cbn [fst] in *.
     rewrite alive_request_dump. congruence.
   - pose proof (alive_create_active s) as H. destruct (create_active s) as [s' e]. cbn [fst] in *. congruence.
-  - pose proof (alive_restore_active s) as H. destruct (restore_active s) as [s' e]. cbn [fst] in *. congruence.
+  - pose proof (alive_restore_active K s) as H. destruct (restore_active K s) as [s' e]. cbn [fst] in *. congruence.
   - rewrite alive_request_dump, worker_dead; exact Ha.
   - rewrite worker_dead; exact Ha.
   - rewrite worker_dead; exact Ha.
@@ -249,6 +261,47 @@ Theorem open_alive : forall s lazy, s_open s = false -> s_alive (fst (step_q K c
 Proof.
   intros s lazy Ho. rewrite step_q_fst, alive_quiesce.
   unfold step. cbn [needs_open andb]. rewrite Ho. cbn [fst]. apply alive_do_open.
+Qed.
+
+(* ---------- 1b. after every history ---------- *)
+
+Lemma open_quiesce s : s_open (quiesce K s) = s_open s.
+Proof. unfold quiesce. destruct (s_alive s && s_dump_req s); reflexivity. Qed.
+
+(* a closed storage stays closed under everything but OOpen *)
+Lemma step_closed s o : s_open s = false -> (forall lazy, o <> OOpen lazy) -> s_open (fst (step K cfg s o)) = false.
+Proof.
+  intros Ho Hne. unfold step. rewrite Ho.
+  destruct o; cbn [needs_open negb andb fst]; try exact Ho.
+  exfalso. apply (Hne lazy). reflexivity.
+Qed.
+
+(* the worker is started by open (do_open) and stopped only by close / drop (closed_state) *)
+Definition AliveWhenOpen (s : storage) : Prop := s_open s = true -> s_alive s = true.
+
+Lemma step_q_AliveWhenOpen s o : AliveWhenOpen s -> AliveWhenOpen (fst (step_q K cfg s o)).
+Proof.
+  intros Hs Ho'. destruct (s_open s) eqn:Ho.
+  - assert (Hend : ~ ends_session o).
+    { intros [E|E]; subst o; rewrite step_q_fst, open_quiesce, (step_open s _ Ho) in Ho'; discriminate Ho'. }
+    apply alive_preserved; [exact Ho|apply Hs, Ho|exact Hend].
+  - destruct o; try (rewrite step_q_fst, open_quiesce, step_closed in Ho' by (exact Ho || discriminate); discriminate Ho').
+    apply open_alive, Ho.
+Qed.
+
+Lemma run_AliveWhenOpen : forall ops s, AliveWhenOpen s -> AliveWhenOpen (fst (run K cfg s ops)).
+Proof.
+  induction ops as [|o r IH]; intros s Hs; [exact Hs|].
+  cbn [run]. pose proof (step_q_AliveWhenOpen s o Hs) as H1.
+  destruct (step_q K cfg s o) as [s' x]. cbn [fst] in H1. specialize (IH s' H1).
+  destruct (run K cfg s' r) as [s'' xs]. exact IH.
+Qed.
+
+(* after EVERY history: a storage that is open has a live worker (no side condition) *)
+Theorem alive_after_every_history : forall ops,
+  s_open (reach K cfg ops) = true -> s_alive (reach K cfg ops) = true.
+Proof.
+  intros ops. apply (run_AliveWhenOpen ops init_storage). intros H. discriminate H.
 Qed.
 
 (* ---------- 2. rotation ---------- *)
@@ -279,7 +332,8 @@ Proof.
   - reflexivity.
 Qed.
 
-(* the counterpart (consequence of F1): with a dead worker the same write does not rotate *)
+(* the counterpart: with a dead worker the same write does not rotate (what made F1 matter; since its
+   repair no history leads to an open storage with a dead worker) *)
 Theorem no_rotation_when_dead : forall s k ts meta msize dlen dseed b,
   s_open s = true -> s_alive s = false -> s_active s = Some b ->
   let s' := fst (step K cfg s (OWrite k ts meta msize dlen dseed)) in
@@ -342,14 +396,15 @@ Qed.
 
 End K.
 
-(* ---------- reachable witness for F1 ---------- *)
+(* ---------- the former witness of F1 ---------- *)
 (* open a fresh directory (an active blob exists), then a background "create active blob" request:
-   it cannot apply, the worker dies; afterwards exceeding the record limit (1) never rotates:
-   next_blob_id stays 1 and both records sit in the blob 0. *)
-Example F1_witness :
+   it cannot apply and is ignored; afterwards exceeding the record limit (1) rotates as it does without the
+   request (before commit 62103db of the code: s_alive = false, next_blob_id stayed 1 and both records sat in
+   the blob 0). *)
+Example F1_repaired :
   let cfg := {| c_dup := true; c_maxrec := 1; c_maxsize := 1000000 |} in
   let s := fst (run 4 cfg init_storage [OOpen false; OBgCreate; OSleep; OWrite 1 7 None 8 5 1; OSleep; OWrite 1 8 None 8 5 2]) in
-  s_alive s = false /\ s_next s = 1.
+  s_alive s = true /\ s_next s = 3.
 Proof. vm_compute. split; reflexivity. Qed.
 
 (* control: the same script without the inapplicable request rotates (twice: next_blob_id = 3) *)
@@ -360,7 +415,9 @@ Example F1_control :
 Proof. vm_compute. split; reflexivity. Qed.
 
 Print Assumptions alive_preserved.
-Print Assumptions inapplicable_kills.
+Print Assumptions inapplicable_harmless.
+Print Assumptions inapplicable_reads.
+Print Assumptions alive_after_every_history.
 Print Assumptions inapplicable_silent.
 Print Assumptions dead_stays_dead.
 Print Assumptions open_alive.
@@ -370,5 +427,5 @@ Print Assumptions dumps_complete.
 Print Assumptions quiesce_discharges.
 Print Assumptions close_returns.
 Print Assumptions close_only_files.
-Print Assumptions F1_witness.
+Print Assumptions F1_repaired.
 Print Assumptions F1_control.
